@@ -187,7 +187,15 @@ func c08e(c *Ctx) {
 			// (in the emitter: lists of any kind — it renders what it is given, a command's
 			// arguments included; the parser patches hoisted labels into argument lists: C06)
 			if !repoElem(c.W, sl.Elem(), 0) && c.W.PkgShort(fn) != "emitter" {
-				return
+				// ... and in the parser only the two registering functions do (the label of a
+				// hoisted text or movement goes into the slot kept free for it: C06.a/b); any other
+				// rewriting of an argument list changes what the author wrote
+				if c.W.PkgShort(fn) != "parser" || fn.Name() == "addImplicitTexts" || fn.Name() == "addImplicitMovements" {
+					return
+				}
+				if b, isB := sl.Elem().Underlying().(*types.Basic); !isB || b.Kind() != types.String {
+					return
+				}
 			}
 			if _, fresh := ia.X.(*ssa.Slice); fresh && localSlice(ia.X, map[ssa.Value]bool{}) {
 				return // the backing array of a literal / variadic argument list being filled
